@@ -30,8 +30,77 @@ UNITS = {
             src="fontdrasil/src/types.rs", functions=[], klass="complete", domain="", pre="", post="Ok and Err both reachable",
             kind="cover", tiers=["quick", "thorough"], timeout_s=120, needs_fmt_stub=True,
         ),
+        dict(
+            obligation="c19_component_offset_rounded_or_rejected", engine="kani", crate="fontbe",
+            src="fontbe/src/glyphs.rs", functions=["fontbe::glyphs::create_component_ref_gid"],
+            klass="complete", domain="all finite f64 offsets e,f; any u16 glyph id; loop-free",
+            pre="e, f finite; 2x2 = identity",
+            post="Ok((c,_)) => |c.x - e| <= 0.5 and |c.y - f| <= 0.5 and c.glyph == gid (a stored offset is the rounded source value, never a clamp)",
+            kind="obligation", tiers=["quick", "thorough"], timeout_s=120,
+        ),
+        dict(
+            obligation="c19_component_offset_in_range_accepted", engine="kani", crate="fontbe",
+            src="fontbe/src/glyphs.rs", functions=["fontbe::glyphs::create_component_ref_gid"],
+            klass="complete", domain="all f64 e,f in [-32768, 32767]; loop-free",
+            pre="-32768 <= e,f <= 32767",
+            post="result is Ok and offsets == floor(v + 0.5) exactly",
+            kind="obligation", tiers=["quick", "thorough"], timeout_s=120,
+        ),
+        dict(
+            obligation="c19_component_2x2_within_one_ulp", engine="kani", crate="fontbe",
+            src="fontbe/src/glyphs.rs", functions=["fontbe::glyphs::create_component_ref_gid"],
+            klass="complete", domain="all f64 a,d in [-2,2]; loop-free",
+            pre="-2 <= a,d <= 2 (upstream decomposition guarantee); b = c = 0",
+            post="Ok; |F2Dot14 bits - v*16384| <= 1 for xx, yy; xy == yx == 0",
+            kind="obligation", tiers=["quick", "thorough"], timeout_s=300,
+        ),
+        dict(
+            obligation="c19_component_cover", engine="kani", crate="fontbe",
+            src="fontbe/src/glyphs.rs", functions=[], klass="complete", domain="", pre="", post="Ok reachable incl. large +/- offsets",
+            kind="cover", tiers=["quick", "thorough"], timeout_s=120,
+        ),
     ],
 }
+
+
+# ------------------------------------------------------------------ C16
+def _c16_units():
+    us = []
+    pairs = [(0, 1), (0, 2), (1, 0), (1, 1), (1, 2), (1, 3), (2, 0), (2, 1), (2, 2), (2, 3), (3, 1), (3, 2), (3, 3)]
+    src = "fontir/src/feature_variations.rs"
+    for la, lb in pairs:
+        bound = f"self has exactly {la} stored u64 words, rhs exactly {lb}; word contents arbitrary (rule indices < {64 * max(la, lb, 1)})"
+        us.append(dict(obligation=f"c16_rank_bitor_{la}_{lb}", engine="kani", crate="fontir", src=src,
+                       functions=["fontir::feature_variations::<&Rank as BitOr<&Rank>>::bitor"], klass="bounded", domain=bound,
+                       pre="a, b arbitrary ranks of the stated word counts", post="val(&a | &b) == val(a) | val(b) (word-wise, aligned at the least significant word)",
+                       kind="obligation", tiers=["quick", "thorough"], timeout_s=300))
+        us.append(dict(obligation=f"c16_rank_bitor_assign_{la}_{lb}", engine="kani", crate="fontir", src=src,
+                       functions=["fontir::feature_variations::<Rank as BitOrAssign<&Rank>>::bitor_assign"], klass="bounded", domain=bound,
+                       pre="a, b arbitrary ranks of the stated word counts", post="after a |= &b: val(a') == val(a) | val(b)",
+                       kind="obligation", tiers=["quick", "thorough"], timeout_s=300))
+        us.append(dict(obligation=f"c16_rank_eq_{la}_{lb}", engine="kani", crate="fontir", src=src,
+                       functions=["fontir::feature_variations::<Rank as PartialEq>::eq"], klass="bounded", domain=bound,
+                       pre="a, b arbitrary ranks of the stated word counts", post="(a == b) <=> val(a) == val(b); leading zero words are insignificant",
+                       kind="obligation", tiers=["quick", "thorough"], timeout_s=300))
+    for l in range(4):
+        bound = f"exactly {l} stored u64 words, contents arbitrary"
+        us.append(dict(obligation=f"c16_rank_shift_{l}", engine="kani", crate="fontir", src=src,
+                       functions=["fontir::feature_variations::Rank::right_shift_one"], klass="bounded", domain=bound,
+                       pre="a arbitrary", post="val(a') == val(a) / 2 (bit 0 of word j+1 moves into bit 63 of word j)",
+                       kind="obligation", tiers=["quick", "thorough"], timeout_s=300))
+        us.append(dict(obligation=f"c16_rank_probe_{l}", engine="kani", crate="fontir", src=src,
+                       functions=["fontir::feature_variations::Rank::first_bit_is_set", "fontir::feature_variations::Rank::is_all_zeros"], klass="bounded", domain=bound,
+                       pre="a arbitrary", post="first_bit_is_set <=> val odd; is_all_zeros <=> val == 0",
+                       kind="obligation", tiers=["quick", "thorough"], timeout_s=300))
+    us.append(dict(obligation="c16_rank_new_is_power_of_two", engine="kani", crate="fontir", src=src,
+                   functions=["fontir::feature_variations::Rank::new"], klass="bounded", domain="rule index i < 192 (1..3 words)",
+                   pre="i < 192", post="val(Rank::new(i)) == 2^i", kind="obligation", tiers=["quick", "thorough"], timeout_s=300))
+    us.append(dict(obligation="c16_rank_cover", engine="kani", crate="fontir", src=src, functions=[], klass="complete", domain="", pre="",
+                   post="generator reaches non-zero multi-word ranks, equal ranks of different length, odd ranks", kind="cover", tiers=["quick", "thorough"], timeout_s=300))
+    return us
+
+
+UNITS["C16"] = _c16_units()
 
 # Assumptions common to every Kani unit (reported in every evidence file)
 KANI_TRUSTED = [
